@@ -244,7 +244,7 @@ def gen_cases(tier, seed):
     cases = []
     n_ep = 24 if tier == "quick" else 400
     for i in range(n_ep):
-        cases.append({"kind": "entrypoints", "n_dim": 2 if i % 3 else 3, "sub": int(rng.integers(1 << 31))})
+        cases.append({"kind": "entrypoints", "n_dim": 2 if i % 3 else (3 if i % 2 else 4), "sub": int(rng.integers(1 << 31))})
     for i in range(12 if tier == "quick" else 200):
         cases.append({"kind": "contours", "sub": int(rng.integers(1 << 31)), "cost": 3})
     ops = ["evalA", "contourA", "fitB", "recreate", "fitA2", "evalA"]
@@ -299,7 +299,7 @@ def _twice(ctx, label, f):
 
 def _entrypoints(case, ctx):
     rng = np.random.default_rng(case["sub"])
-    st = S.all_structures(case["n_dim"])
+    st = S.all_structures(min(case["n_dim"], 4))
     spec = S.gen_spec(rng, structure=st[int(rng.integers(len(st)))], nonneg=True)
     model = S.build_virocon(spec)
     ref = S.RefModel(spec)
@@ -330,6 +330,18 @@ def _entrypoints(case, ctx):
     _twice(ctx, "model.marginal_icdf(unconditional)", lambda: model.marginal_icdf(p, 0))
     _twice(ctx, "model.marginal_pdf(unconditional)", lambda: model.marginal_pdf(X[:5, 0], 0))
     _twice(ctx, "model.marginal_cdf(unconditional)", lambda: model.marginal_cdf(X[:5, 0], 0))
+    if case["n_dim"] >= 3:
+        from virocon import IFORMContour, ISORMContour, HighestDensityContour
+
+        _twice(ctx, "IFORMContour(3-D)", lambda: IFORMContour(model, 0.03, n_points=14).coordinates)
+        _twice(ctx, "ISORMContour(3-D)", lambda: ISORMContour(model, 0.03, n_points=9).coordinates)
+        lims = [(0.0, float(ref.dim_range(i, eps=1e-4)[1])) for i in range(case["n_dim"])]
+        try:
+            if case["n_dim"] != 3:
+                raise IndexError
+            _twice(ctx, "HighestDensityContour(3-D)", lambda: HighestDensityContour(model, 0.1, limits=lims, deltas=[(h - l) / 9 for l, h in lims]).coordinates)
+        except IndexError:
+            ctx.count("c19.hdc-coarse-skipped")
     if case["n_dim"] == 2:
         cond_dims = [i for i, c_ in enumerate(model.conditional_on) if c_ is not None]
         if cond_dims:
